@@ -481,6 +481,11 @@ def algebra_shape(chk, F):
             if rv.get("k") == "binop" and rv["op"].startswith("Mul") and rv.get("aty", "i64") == "i64":
                 a, b = ap_str(c.apath(rv["a"])), ap_str(c.apath(rv["b"]))
                 ok = ok or (a.endswith(".1") and power in b)
+    # ... or powi hands the unit to Dimensionality::pow (checked above: multiplies every exponent, drops the zero ones) with the power
+    for bb, t in fn.calls():
+        if "callee" in t and t["callee"]["path"] == DIM + "::pow" and len(t["args"]) == 2:
+            u, pw = ap_str(fn.apath(t["args"][0])), ap_str(fn.apath(t["args"][1]))
+            ok = ok or ("arg1.unit" in u and "arg2" in pw and "binop" not in pw)
     chk.decide(ok, "algebra-shape", "rink_core::Number::powi", "multiplies-exponents", fn.where(), "powi multiplies every exponent by the power", "powi does not multiply each exponent by the power")
     # root divides behind the divisibility gate
     fn = F.find(CORE, "types::number::Number::root")
@@ -503,11 +508,79 @@ def algebra_shape(chk, F):
             if rem and zero:
                 return {"false"} if r[1] == "Ne" else {"true"}
         return None
-    k2.gate_rule(chk, fn, "algebra-shape", "rink_core::Number::root", "divisibility-gate", ins, divisible,
-                 "root stores power / exp only behind `power % exp == 0`", "root stores a quotient exponent without checking divisibility")
+    two_phase = exact_by_all_gate(F, root_fn, fn) if fn is not root_fn else None
+    if two_phase:
+        chk.ok("algebra-shape", "rink_core::Number::root", "divisibility-gate", fn.where(ins[0]), "root divides the exponents only " + two_phase)
+    else:
+        k2.gate_rule(chk, fn, "algebra-shape", "rink_core::Number::root", "divisibility-gate", ins, divisible,
+                     "root stores power / exp only behind `power % exp == 0`", "root stores a quotient exponent without checking divisibility")
     q = quot
     fn = root_fn
     chk.decide(len(q) == 1, "algebra-shape", "rink_core::Number::root", "divides-exponents", fn.where(), "root divides every exponent by the degree", "root does not divide each exponent by the degree")
+
+
+def _cap(ap, caps):
+    """An access path inside a closure, in terms of the function that made the closure: `arg1.<k>..` is capture k."""
+    root, projs = ap
+    if root == ("arg", 1) and projs and str(projs[0]).isdigit() and int(projs[0]) < len(caps):
+        c = caps[int(projs[0])]
+        return (c[0], c[1] + tuple(projs[1:]))
+    return ap
+
+
+def exact_by_all_gate(F, outer, C):
+    """`if !entries.all(|(_, &p)| p % d == 0) { return Err(..) }  entries.map(|(k, &p)| (k, p / d)).collect()`: the division in the
+    mapped closure C is exact when the place where `outer` hands C to `map` is reached only through the true edge of
+    `Iterator::all` over the same entries with a closure that is exactly `p % d == 0` for the same d.  Returns a description or None."""
+    def closure_uses(fn, pred):
+        out = []
+        for bb, t in fn.calls():
+            if "callee" not in t or not pred(t["callee"]["path"]) or len(t["args"]) < 2:
+                continue
+            a = fn.apath(t["args"][1])
+            if a[0][0] == "agg" and str(a[0][1]).startswith("closure:"):
+                out.append((bb, t, a[0][1][len("closure:"):], a[0][2], fn.apath(t["args"][0])))
+        return out
+    maps = [m for m in closure_uses(outer, lambda p: p.endswith(("Iterator::map", "Iterator>::map"))) if m[2] == C.path]
+    if len(maps) != 1:
+        return None
+    mbb, mt, _, mcaps, msrc = maps[0]
+    divs = [st["rv"] for _, _, st in C.stmts() if st.get("rv", {}).get("k") == "binop" and st["rv"]["op"] == "Div" and st["rv"].get("aty") == "i64"]
+    if len(divs) != 1:
+        return None
+    divisor = _cap(C.apath(divs[0]["b"]), mcaps)
+    alls = {(bb): (cp, caps, src) for bb, t, cp, caps, src in closure_uses(outer, lambda p: p.endswith(("Iterator::all", "Iterator>::all")))}
+    for g in outer.guards_of(mbb):
+        d = outer.guard_desc(g)
+        if d[0] != "bool" or d[2] is not True:
+            continue
+        r = d[1][0]
+        if r[0] != "call" or not r[1].endswith(("Iterator::all", "Iterator>::all")) or d[1][1]:
+            continue
+        hit = alls.get(r[3])
+        if hit is None:
+            continue
+        cp, caps, src = hit
+        A = next((f for f in F.by_crate[outer.crate] if f.path == cp), None)
+        # same entries: both iterate the same container (the receiver chains differ only in the iterator calls)
+        def container(ap):
+            while ap[0][0] == "call" and ap[0][2] and ap[0][1].endswith(("::iter", "::into_iter", "IntoIterator>::into_iter", "::by_ref", "DerefMut>::deref_mut", "Deref>::deref")):
+                ap = ap[0][2][0]
+            return ap_str(ap)
+        if A is None or container(src) != container(msrc):
+            continue
+        rets = [st for _, _, st in A.stmts() if st["k"] == "assign" and st["place"]["l"] == 0 and not st["place"]["p"]]
+        if len(rets) != 1 or rets[0]["rv"].get("k") != "binop" or rets[0]["rv"]["op"] != "Eq":
+            continue
+        x, y = A.apath(rets[0]["rv"]["a"]), A.apath(rets[0]["rv"]["b"])
+        rem, zero = (x, y) if y[0] == ("const", 0) else ((y, x) if x[0] == ("const", 0) else (None, None))
+        if rem is None or rem[0][0] != "binop" or rem[0][1] != "Rem" or rem[1]:
+            continue
+        same_d = facts.ap_match(_cap(rem[0][3], caps), divisor)
+        elem = ap_str(rem[0][2]).endswith(".1") and ap_str(C.apath(divs[0]["a"])).endswith(".1")
+        if same_d and elem:
+            return "behind `all(|p| p %% d == 0)` over the same entries (%s)" % container(src)[:60]
+    return None
 
 
 # ---------------------------------------------------------------------------------------------
@@ -639,6 +712,8 @@ def zero_exponent(chk, F):
                         found = True
                         vap = c.apath(rv["ops"][1])
                         cls = classify(c, vap)
+                        if cls == "nonzero-if-exact" and exact_by_all_gate(F, fn, c):
+                            cls = "nonzero"      # an existing (non-zero) exponent divided exactly is non-zero
                         decide(c, c.where(i, j), "collected:exponent", cls, "collected exponent is non-zero (%s)" % ap_str(vap)[:80],
                                "a (unit, exponent) pair whose exponent may be zero is collected into a Dimensionality: %s" % ap_str(vap)[:120], filtered=filtered)
             if not found:
